@@ -79,6 +79,12 @@ def check(prog: Program, run: Run) -> None:
              "non-constant one (shared with C06.R4)", floor=2)
     from . import c06
     common.run_as(run, "C06.R4", "C18.R8", lambda r: c06._const_prefix(prog, r))
+    run.rule("C18.R10", "the `Bit Length` compare_parameters reports comes from "
+             "get_static_bit_length(); for a parameter whose DOP is a structure that is the "
+             "maximum extent any of its parameters reaches, whatever order they are listed in "
+             "(shared with C08)", floor=3)
+    from . import c08
+    c08._composite_length(prog, run, "C18.R10")
     common.g2_repeated_tests(prog, run, "C18.R1", SCOPE)
     common.g1_literal_attrs(prog, run, "C18.R2", SCOPE)
     _compare_parameters(prog, run)
